@@ -34,7 +34,9 @@ RULE = ("unit expressions are generated from structured item lists (prefix, tabl
         "the base units); refused conversions whose multi-atom target fails on a later atom and conversions of another quantity "
         "inside the Quantity histories; refused UnitEnvironment registrations (collision with a prefixed table symbol) followed "
         "by conversions of that prefixed unit; the unit tables re-extracted at the end of the run and compared with the start; "
-        "every prefix of the prefix table at least once per run on either side; "
+        "every prefix of the prefix table at least once per run on either side; np.linspace with the first end point a "
+        "unit-less Quantity (literal or result of a cancelling division) or a unit, the second end point same-dimension, "
+        "dimensionless (%, ppth, PR) or of another dimension (refused); "
         "reciprocal pairs also with arrays holding exact zeros; the empty unit as target in every form; np.sin/cos/tan on "
         "rad, mrad, deg, arcmin, arcsec, bare numbers, powers of rad and other dimensions, np.arcsin/arccos/arctan on plain "
         "numbers, %, PR, ppth, rad, m; augmented assignments (*=, /=, +=, -=) inside the Quantity histories; units written "
@@ -49,6 +51,8 @@ ASSUMPTIONS = [
     "inside a target expression (BaseUnits drops them; C03) are not generated",
     "a magnitude given as a numpy array or numpy scalar of any real dtype denotes the number it holds; Magnitude casts it to "
     "float64, so the tolerance is the double-precision one (1e-12); values not representable in the dtype are not generated",
+    "np.linspace(first, second, n): the second end point is judged like second.value(first's units) (reciprocal dimensions "
+    "follow the reciprocal rule as value() does); a plain-number first argument is not exercised",
     "nearly equal factors are still different factors: the 1e-12 tolerance applies to them as to any pair",
     "an unknown symbol in a target expression (tokens no table symbol is a suffix of) is expected to be refused by C03's parser; "
     "this check only requires that the quantity is unchanged after such a refusal and that later conversions are unaffected; "
@@ -892,6 +896,84 @@ def trig_stream(ctx, cat, count):
             ctx.violation("trig:%s:units" % c["fn"], "np.%s(Quantity(%r, %r)) reports units %r" % (c["fn"], c["x"], c["eu"], gunits), replay)
 
 
+# ------------------------------------------------------------------ np.linspace: the second end point is converted
+def linspace_stream(ctx, cat, count):
+    """np.linspace(first, second, n) expresses the second end point in the first one's units: x*f(u)/f(v) for the same
+    dimension, refused otherwise; the first end point may be a unit-less Quantity (a literal number or the result of a
+    cancelling division): then dimensionless table units (%, ppth, PR) are converted and anything dimensional is refused"""
+    import numpy as np
+    from scinumtools.units import Quantity
+    rng = ctx.rng
+    groups = cat.by_dimension(cat.linear)
+    dimless = [t for t in cat.linear if all(d == 0 for d in cat.dimkey(t))]
+    dimensional = [t for t in cat.linear if any(d != 0 for d in cat.dimkey(t))]
+    cases = []
+    for _ in range(count):
+        r = rng.random()
+        start = rng.choice([2.0, 0.0, -1.5, 10.0])
+        if r < 0.5:                      # unit-less first end point
+            first = rng.choice(["literal", "division", "division"])
+            iv = []
+            t = rng.choice(dimless) if rng.random() < 0.5 else rng.choice(dimensional)
+            iu = [(pick_prefix(cat, rng, t), t, (1, 1))]
+        else:
+            first = "unit"
+            t = rng.choice(cat.linear)
+            iv = [(pick_prefix(cat, rng, t), t, (1, 1))]
+            w = rng.choice(groups[cat.dimkey(t)]) if rng.random() < 0.7 else rng.choice(cat.linear)
+            iu = [(pick_prefix(cat, rng, w), w, (1, 1))]
+        if not (U.reads_as_intended(cat, iu) and U.reads_as_intended(cat, iv)):
+            continue
+        cases.append({"first": first, "start": start, "iv": iv, "iu": iu, "x": rng.choice([5.0, 50000.0, -3.0, 0.25, 1e6]),
+                      "n": rng.choice([2, 3, 5])})
+    res = ctx.driver.ask_many([{"k": "conv", "x": U.mag_req(c["x"]), "u": cat.req_items(c["iu"]), "v": cat.req_items(c["iv"])}
+                               for c in cases])
+    for c, r in zip(cases, res):
+        eu, ev = U.render_items(c["iu"]), U.render_items(c["iv"])
+        ctx.count("stream.linspace")
+        ctx.count("linspace.first-" + c["first"])
+        desc = {"literal": "Quantity(%r)" % c["start"], "division": "Quantity(%r,'m')/Quantity(4.0,'m')" % (4 * c["start"]),
+                "unit": "Quantity(%r,%r)" % (c["start"], ev)}[c["first"]]
+        ctx.case("linspace|%s|%s|%r|%d" % (desc, eu, c["x"], c["n"]), True, {"linspace": [desc, c["x"], eu, c["n"]]} if c["first"] == "division" else None)
+        replay = {"stream": "linspace", "first": desc, "x": c["x"], "u": eu, "n": c["n"], "iu": c["iu"], "iv": c["iv"]}
+        if "ok" not in r:
+            ctx.disagreement("linspace", replay, "driver error %s" % r)
+            continue
+        kind = r["ok"]["spec"]["kind"]
+        with warnings.catch_warnings(), np.errstate(all="ignore"):
+            warnings.simplefilter("ignore")
+            try:
+                if c["first"] == "literal":
+                    a = Quantity(c["start"])
+                elif c["first"] == "division":
+                    a = Quantity(4 * c["start"], "m") / Quantity(4.0, "m")
+                else:
+                    a = Quantity(c["start"], ev)
+                out = np.linspace(a, Quantity(c["x"], eu), c["n"])
+                got, gunits = U.as_list(out.value()), out.units()
+            except FLOAT_ERRORS:
+                ctx.count("unjudged.float-exception")
+                continue
+            except Exception as e:
+                got, gunits = "err", repr(e)[:120]
+        if kind == "refuse":
+            if got != "err":
+                ctx.violation("linspace:accepted", "np.linspace(%s, Quantity(%r,%r), %d) = %r is not refused although %s does not "
+                              "convert to %s" % (desc, c["x"], eu, c["n"], got, eu, ev or "a plain number"), replay)
+            continue
+        if kind == "numberToRad":
+            continue
+        want = U.as_list(U.mag_back(r["ok"]["spec"]["val"]))[0]
+        if not U.in_float_range([want]):
+            ctx.count("unjudged.float-range")
+        elif got == "err":
+            ctx.violation("linspace:refused", "np.linspace(%s, Quantity(%r,%r), %d) raises %s" % (desc, c["x"], eu, c["n"], gunits), replay)
+        elif len(got) != c["n"] or not U.close(got[0], c["start"], 1e-12) or not U.close(got[-1], want, 1e-12) \
+                or gunits != (target_expression(ev) if ev else None):
+            ctx.violation("linspace:endpoint", "np.linspace(%s, Quantity(%r,%r), %d) = %r %s; the second end point converted by "
+                          "x*f(u)/f(v) is %r" % (desc, c["x"], eu, c["n"], got, gunits, want), replay)
+
+
 # ------------------------------------------------------------------ histories across unit environments
 ENV_SYMBOLS = ["ulen", "utim", "umas", "uqx"]
 
@@ -1462,6 +1544,7 @@ def correspond(ctx: Ctx, scale=1):
     run_cases(ctx, cat, rn)
     result_number_functions(ctx, cat, rn)
     trig_stream(ctx, cat, (1500 if ctx.tier == "thorough" else 200) * scale)
+    linspace_stream(ctx, cat, (1000 if ctx.tier == "thorough" else 150) * scale)
     env_history_stream(ctx, (150 if ctx.tier == "thorough" else 15) * scale)
     near_hists = near_equal_stream(ctx, cat)
     quantity_history_stream(ctx, cat, (2000 if ctx.tier == "thorough" else 250) * scale, near_hists)
